@@ -1,7 +1,7 @@
 (* C15 — shortcut syntax is equivalent to the explicit API.  The dispatch of __setattr__ / _convert_attribute_to_child /
    __getattr__ is by name only; the facts that make it land on the right child class and attribute are finite and are
    computed here over ALL element names and attribute names of the regenerated tables. *)
-From MX Require Import Spec.Naming Gen.Schema Gen.Lib Gen.Names Model.Tables Model.Attr.
+From MX Require Import Spec.Naming Gen.Schema Gen.Lib Gen.Names Model.Tables Model.Attr Gen.Code.
 From Coq Require Import List String Bool Ascii.
 Import ListNotations.
 Open Scope string_scope.
@@ -41,6 +41,22 @@ Proof.
   exact (forallb_In (fun n => negb (String.prefix "xml_" (under (strip_prefix n)))) attr_names n ltac:(vm_compute; reflexivity) I).
 Qed.
 Print Assumptions C15_no_attr_is_child_syntax.
+(* what  e.xml_x = value  does, as the SOURCE has it (decision table of _convert_attribute_to_child read by the translator on every run,
+   fail-closed), is the explicit call the property names - the one the twin runs of the correspondence use as the explicit side *)
+Definition explicit_equivalent (k:sc_kind) (child_present:bool) : sc_action :=
+  match k, child_present with
+  | ScInstance, true => ScReplace      (* replace_child(found, value) *)
+  | ScInstance, false => ScAddGiven    (* add_child(value) *)
+  | ScIsNone, true => ScRemove         (* remove(found) *)
+  | ScIsNone, false => ScNothing
+  | ScOther, true => ScSetValue        (* found.value_ = value *)
+  | ScOther, false => ScAddNew end.    (* add_child(cls(value)) *)
+Definition table_action (k:sc_kind) (child_present:bool) : option sc_action :=
+  match find (fun r => match fst r, k with ScInstance, ScInstance | ScIsNone, ScIsNone | ScOther, ScOther => true | _, _ => false end) shortcut_table with
+  | Some (_, (a, b)) => Some (if child_present then a else b) | None => None end.
+Theorem C15_shortcut_source : tr_shortcut_ok = true /\ forall k p, table_action k p = Some (explicit_equivalent k p).
+Proof. split; [reflexivity|]. intros [] []; reflexivity. Qed.
+Print Assumptions C15_shortcut_source.
 (* recorded deviation RC12: `name` is the one attribute whose dot name is a reserved property *)
 Example C15_refuted_name : plain_key lib_properties "name" = false.
 Proof. vm_compute. reflexivity. Qed.
